@@ -324,7 +324,11 @@ func (env *SpecEnv) eval(n *Node) Val {
 					sfail("quantified variable %s must be scalar", vd.Name)
 				}
 				srt = ls[0].Sort
-				ranges = append(ranges, scalarRange(ls[0], nm))
+				if b, ok := t.(*types.Basic); !ok || (b.Kind() != types.Int && b.Kind() != types.Int64) {
+					// int-typed bound variables are mathematical integers (they only
+					// ever index sequences); narrower types keep their range
+					ranges = append(ranges, scalarRange(ls[0], nm))
+				}
 				c.vars[vd.Name] = Val{T: t, L: []string{nm}}
 			} else {
 				c.vars[vd.Name] = mathInt(nm)
@@ -770,7 +774,14 @@ func (env *SpecEnv) evalCall(n *Node) Val {
 	case "ref":
 		x := env.eval(args[0])
 		return mathInt(ex.lower(x).L[0])
-	case "held":
+	case "ospid":
+		ex.sc.global("os_pid", sInt)
+		return mathInt("os_pid")
+	case "envowned":
+		x := env.eval(args[0])
+		own := ex.comp(env.cur, "envowned", sArr(sInt, sBool))
+		return mathBool(mkSelect(own, ex.lower(x).L[0]))
+	case "held", "done":
 		x := env.eval(args[0])
 		if len(x.L) != 1 {
 			sfail("held() needs a mutex")
@@ -823,6 +834,49 @@ func (env *SpecEnv) evalCall(n *Node) Val {
 		i := env.eval(args[0])
 		k := env.eval(args[1])
 		return mathInt(mkSelect(mkSelect(ex.comp(env.cur, "envlog|arg", sArr(sInt, sArr(sInt, sInt))), i.L[0]), k.L[0]))
+	case "envbyte":
+		// byte k of the first []byte argument of entry i, as it was at the time of the call
+		i := env.eval(args[0])
+		k := env.eval(args[1])
+		bc := ex.comp(env.cur, "envlog|bytes", sArr(sInt, sArr(sInt, sInt)))
+		oc := ex.comp(env.cur, "envlog|boff", sArr(sInt, sInt))
+		return mathInt(mkSelect(mkSelect(bc, i.L[0]), mkAdd(mkSelect(oc, i.L[0]), k.L[0])))
+	case "envle32":
+		i := env.eval(args[0])
+		k := env.eval(args[1])
+		bc := ex.comp(env.cur, "envlog|bytes", sArr(sInt, sArr(sInt, sInt)))
+		oc := ex.comp(env.cur, "envlog|boff", sArr(sInt, sInt))
+		return mathInt(composeLE(mkSelect(bc, i.L[0]), mkAdd(mkSelect(oc, i.L[0]), k.L[0]), 4))
+	case "envle16":
+		i := env.eval(args[0])
+		k := env.eval(args[1])
+		bc := ex.comp(env.cur, "envlog|bytes", sArr(sInt, sArr(sInt, sInt)))
+		oc := ex.comp(env.cur, "envlog|boff", sArr(sInt, sInt))
+		return mathInt(composeLE(mkSelect(bc, i.L[0]), mkAdd(mkSelect(oc, i.L[0]), k.L[0]), 2))
+	case "ptr":
+		// ptr(T, r): the object reference r seen as a *T
+		t := env.resolveType(nodeText(args[0]))
+		r := env.eval(args[1])
+		return Val{T: types.NewPointer(t), L: []string{r.L[0]}}
+	case "tidOf":
+		t := env.resolveType(nodeText(args[0]))
+		return mathInt(ex.tid(t))
+	case "s32":
+		x := env.eval(args[0])
+		return mathInt(mkIte(mkCmp(">=", x.L[0], "2147483648"), mkSub(x.L[0], "4294967296"), x.L[0]))
+	case "recvMsg":
+		// first message of the slice returned by log entry i (results start at index 16), read in the current heap
+		i := env.eval(args[0])
+		argC := ex.comp(env.cur, "envlog|arg", sArr(sInt, sArr(sInt, sInt)))
+		row := mkSelect(argC, i.L[0])
+		ref, off := mkSelect(row, "16"), mkSelect(row, "17")
+		mt := ex.eng.prog.ImportedPackage("syscall").Pkg.Scope().Lookup("NetlinkMessage").Type()
+		leaves := flatten(mt)
+		out := Val{T: mt, L: make([]string, len(leaves))}
+		for j := range leaves {
+			out.L[j] = mkSelect(ex.elemArr(env.cur, mt, j, ref), idxAdd(off, "0"))
+		}
+		return out
 	case "envkindOf":
 		return mathInt(num(int64(ex.eng.envKind(nodeText(args[0])))))
 	}
@@ -1012,9 +1066,10 @@ func (ex *Exec) assumeRequires(fr *Frame, st *State) {
 }
 
 type modItem struct {
-	comp string // component name
-	ref  string // "" = whole component
-	srt  string
+	comp    string // component name
+	ref     string // "" = whole component
+	srt     string
+	envOnly bool // whole component, but only environment-owned objects may change
 }
 
 // evalModifies turns one modifies item into component/ref pairs.
@@ -1027,9 +1082,9 @@ func (ex *Exec) evalModifies(env *SpecEnv, n *Node) []modItem {
 		for k := lo; k < lo+cnt; k++ {
 			switch kind {
 			case "H":
-				out = append(out, modItem{compH(root, k), ref, sArr(sInt, ls[k].Sort)})
+				out = append(out, modItem{comp: compH(root, k), ref: ref, srt: sArr(sInt, ls[k].Sort)})
 			case "E":
-				out = append(out, modItem{compE(root, k), ref, sArr(sInt, sArr(sInt, ls[k].Sort))})
+				out = append(out, modItem{comp: compE(root, k), ref: ref, srt: sArr(sInt, sArr(sInt, ls[k].Sort))})
 			}
 		}
 	}
@@ -1096,10 +1151,10 @@ func (ex *Exec) evalModifies(env *SpecEnv, n *Node) []modItem {
 		case "mapOf":
 			x := env.eval(n.Args[1])
 			mt, kl := mapKV(x.T)
-			out = append(out, modItem{compMdom(x.T), x.L[0], sArr(sInt, sArr(kl.Sort, sBool))})
-			out = append(out, modItem{compMlen(x.T), x.L[0], sArr(sInt, sInt)})
+			out = append(out, modItem{comp: compMdom(x.T), ref: x.L[0], srt: sArr(sInt, sArr(kl.Sort, sBool))})
+			out = append(out, modItem{comp: compMlen(x.T), ref: x.L[0], srt: sArr(sInt, sInt)})
 			for k, l := range flatten(mt.Elem()) {
-				out = append(out, modItem{compMval(x.T, k), x.L[0], sArr(sInt, sArr(kl.Sort, l.Sort))})
+				out = append(out, modItem{comp: compMval(x.T, k), ref: x.L[0], srt: sArr(sInt, sArr(kl.Sort, l.Sort))})
 			}
 		default:
 			sfail("bad modifies item %s()", fn.Name)
@@ -1107,11 +1162,16 @@ func (ex *Exec) evalModifies(env *SpecEnv, n *Node) []modItem {
 	case "ident":
 		switch n.Name {
 		case "alloc":
-			out = append(out, modItem{compAlloc, "", sArr(sInt, sBool)})
+			out = append(out, modItem{comp: compAlloc, ref: "", srt: sArr(sInt, sBool)})
 		case "envlog":
-			out = append(out, modItem{"envlog|len", "", sInt}, modItem{"envlog|kind", "", sArr(sInt, sInt)}, modItem{"envlog|arg", "", sArr(sInt, sArr(sInt, sInt))})
+			out = append(out, modItem{comp: "envlog|len", ref: "", srt: sInt}, modItem{comp: "envlog|kind", ref: "", srt: sArr(sInt, sInt)}, modItem{comp: "envlog|arg", ref: "", srt: sArr(sInt, sArr(sInt, sInt))},
+				modItem{comp: "envlog|bytes", ref: "", srt: sArr(sInt, sArr(sInt, sInt))}, modItem{comp: "envlog|boff", ref: "", srt: sArr(sInt, sInt)})
 		case "clock":
-			out = append(out, modItem{"clock", "", sInt})
+			out = append(out, modItem{comp: "clock", ref: "", srt: sInt})
+		case "envbytes":
+			// byte arrays owned by the environment (receive buffers)
+			out = append(out, modItem{comp: compE(types.Typ[types.Uint8], 0), srt: sArr(sInt, sArr(sInt, sInt)), envOnly: true})
+			out = append(out, modItem{comp: "envowned", srt: sArr(sInt, sBool)})
 		case "nothing":
 		default:
 			sfail("bad modifies item %s", n.Name)
@@ -1166,7 +1226,36 @@ func (ex *Exec) modularCall(fr *Frame, st *State, reach string, callee *ssa.Func
 				ex.noteWrite(mi.comp, "*")
 				continue
 			}
+			if mi.comp == "envowned" {
+				// ownership only grows, and an object that existed before the call and
+				// was private stays private unless it was passed to the callee
+				ex.sc.assert(fmt.Sprintf("(forall ((r Int)) (! (=> (select %s r) (select %s r)) :pattern ((select %s r))))", old, nw, nw))
+				allocPre := ex.comp(pre, compAlloc, sArr(sInt, sBool))
+				excl := []string{mkSelect(allocPre, "r"), mkNot(mkSelect(old, "r"))}
+				for _, a := range args {
+					if a.T == nil || a.LV != nil || a.Fn != nil {
+						continue
+					}
+					ls := flatten(a.T)
+					if len(ls) != len(a.L) {
+						continue
+					}
+					for i, l := range ls {
+						if len(l.Dims) == 0 && l.Kind == lkSliceRef {
+							excl = append(excl, mkNot(mkEq("r", a.L[i])))
+						}
+					}
+				}
+				ex.sc.assert(fmt.Sprintf("(forall ((r Int)) (! (=> %s (not (select %s r))) :pattern ((select %s r))))", mkAnd(excl...), nw, nw))
+				st.heap[mi.comp] = nw
+				ex.noteWrite(mi.comp, "*")
+				continue
+			}
 			if mi.ref == "" {
+				if mi.envOnly {
+					own := ex.comp(st, "envowned", sArr(sInt, sBool))
+					ex.sc.assert(fmt.Sprintf("(forall ((r Int)) (! (=> (not (select %s r)) (= (select %s r) (select %s r))) :pattern ((select %s r))))", own, nw, old, nw))
+				}
 				st.heap[mi.comp] = nw
 				ex.noteWrite(mi.comp, "*")
 			} else {
@@ -1178,6 +1267,7 @@ func (ex *Exec) modularCall(fr *Frame, st *State, reach string, callee *ssa.Func
 	if !ctr.HasModifies && !ctr.Pure && !ctr.Assume {
 		panic(unsupported("contract of " + ctr.Key + " has no modifies clause (write 'modifies nothing' or 'pure')"))
 	}
+	ex.envlogFrame(pre, st)
 	res := ex.freshResults(st, sig, sanitize(callee.Name()))
 	post := ex.newSpecEnv(callee, st, pre)
 	post.entryAlloc = ex.comp(pre, compAlloc, sArr(sInt, sBool))
